@@ -105,6 +105,16 @@ func (s *Service) CreatePin(ctx context.Context, ref boson.Address, traverse boo
 
 // DeletePin implements Interface.DeletePin method.
 func (s *Service) DeletePin(ctx context.Context, ref boson.Address) error {
+	// without a root pin there is nothing to take back: un-pinning the
+	// chunks again would decrement counters held by other references
+	has, err := s.HasPin(ref)
+	if err != nil {
+		return err
+	}
+	if !has {
+		return nil
+	}
+
 	var iterErr error
 	ctx = sctx.SetRootHash(ctx, ref)
 	// iterFn is a unpinning iterator function over the leaves of the root.
